@@ -303,7 +303,7 @@ def plan_jobs(prop, tier, seed, flavours, nshards=None, extra=None):
     os.makedirs(os.path.join(WORK, prop), exist_ok=True)
     jobs = []
     ns = nshards or NCPU
-    timeout = 1500 if tier == "quick" else 6 * 3600
+    timeout = 3600 if tier == "quick" else 6 * 3600
     for fl in flavours:
         # "name:k" = only the first k of the ns shards of that flavour (a fraction of its cases: secondary flavours of the quick tier)
         fl, _, part = fl.partition(":")
